@@ -135,6 +135,12 @@ def run_impl(case):
                 out.append(['ok'])
             elif k == 'q':
                 a, b = c07._term(stores, op[1]), c07._term(stores, op[2])
+                # a quantity of magnitude zero is converted like any other: between unconnected dimensions it fails too
+                try:
+                    st.convert(st.Quantity(0.0, a), b)
+                    zero_ok = True
+                except Exception:
+                    zero_ok = False
                 # both entry points are tried, whatever the other does (a failed attempt must not be remembered)
                 try:
                     st.get_conversion_factor(a, b)
@@ -149,7 +155,7 @@ def run_impl(case):
                     cf = float(cf.subs({syms[i]: v for i, v in SYMVALS.items()}))
                 out.append(['ok', float(mag), bool(q.units == b), float(cf)])
         except Exception as e:
-            out.append(['err', c07._errcode(e), str(e)[:100]])
+            out.append(['err', c07._errcode(e), str(e)[:100]] + (['zero-converted'] if k == 'q' and locals().get('zero_ok') else []))
     return out
 
 
@@ -189,6 +195,10 @@ def oracle(case, impl):
         while t[0] != 'get':
             t = t[1]
         return t[2][0]
+    for (op, r1) in before + after:
+        if r1[0] == 'err' and r1[-1] == 'zero-converted':
+            bad.append(('a quantity of magnitude 0 converts between units whose conversion of 1 raises: %r' % (r1[:3],),
+                        {'from': op[1], 'to': op[2]}))
     for (op, r1) in after:
         s, t = tag(op[1]), tag(op[2])
         if s != t and (s, t) not in conn:
